@@ -40,8 +40,18 @@ func checkModes(c *rt.Ctx, keyPrefix string, t triple, vs variantSpec, shapes []
 			c.Violation(fmt.Sprintf("%s mode=single-%s sclass=%s exp=%s got=%s", keyPrefix, mode, sClass(S), boolStr(exp), boolStr(got)),
 				fmt.Sprintf("single verification (%s, %s) returned %v, model says %v (%s)", mode, vs, got, exp, cause), d)
 		}
-		for _, sh := range shapes {
+		for shi, sh := range append(append([]batchShape{}, shapes...), shapes...) {
 			entries := batchWith(t, sh.pos, sh.n, vs)
+			// second pass over the shapes: an earlier entry of the same chunk has a wrong-length
+			// signature (the scalar loop stops there and the chunk goes to the fallback)
+			brk := -1
+			if shi >= len(shapes) {
+				brk = (sh.pos / 64) * 64
+				if brk == sh.pos {
+					continue
+				}
+				entries[brk].sig = entries[brk].sig[:63]
+			}
 			rnd := rt.NewRng(c.Seed, fmt.Sprintf("c04-%d-%d", sh.pos, sh.n))
 			all, valid, err, pv := implBatch(entries, vs, zip, rnd)
 			c.Step(1)
@@ -49,7 +59,7 @@ func checkModes(c *rt.Ctx, keyPrefix string, t triple, vs variantSpec, shapes []
 			if okShape {
 				and := true
 				for i, v := range valid {
-					want := true
+					want := i != brk
 					if i == sh.pos {
 						want = exp
 					}
